@@ -429,7 +429,9 @@ func main() {
 					live[id] = sub{a, n, id, sop}
 				}
 			case c < 60:
-				do(fmt.Sprintf("admin id=%d", 1000+R.Intn(6)))
+				aid := 1000 + R.Intn(6)
+				do(fmt.Sprintf("admin id=%d", aid))
+				delete(committed, aid) // submitted again: it may be offered again
 			case c < 88: // a block: a subset of what the pool offers (mostly a prefix per account, sometimes with holes: any proposer)
 				res := do("reap")
 				if !strings.HasPrefix(res, "reap") {
@@ -446,6 +448,9 @@ func main() {
 							continue
 						}
 						if kvp[0] == "ext" {
+							if committed[int(nodeimpl.Atoi(e))] {
+								fail("committed-admin-request-offered-again", fmt.Sprintf("admin request %s was contained in a committed block, was not submitted again, and is offered for inclusion again", e), e, "")
+							}
 							if R.Chance(70) {
 								ids = append(ids, e)
 							}
